@@ -3,7 +3,7 @@
 From Coq Require Import List NArith ZArith Bool.
 From Coq Require Import Permutation.
 From GoGit Require Import Base.Out Model.CommitGraph Spec.Dag Spec.DagGen2 Proofs.C51 Proofs.C51Reader Proofs.C51Records
-  Proofs.C51Roundtrip Proofs.C51Decode Proofs.C51Derived.
+  Proofs.C51Roundtrip Proofs.C51Decode Proofs.C51Derived Proofs.C51Lookup.
 Import ListNotations.
 Local Open Scope N_scope.
 
@@ -75,6 +75,20 @@ Proof.
   - exact (commit_readback es trailer Hwf Htr fi Hopen i Hi').
 Qed.
 Print Assumptions C51_commit_data.
+
+(* GetIndexByHash: the fanout bucket of the id's first byte and the binary search inside it (at most 40 halvings,
+   uint32 midpoint) find every commit of the graph at its position *)
+Theorem C51_lookup : forall es trailer fi i, graph_ok es -> List.length trailer = 20%nat ->
+  open_file (encode es ++ trailer) = Ok fi -> (i < List.length es)%nat ->
+  index_by_hash (encode es ++ trailer) fi (e_hash (nth i (sorted_entries es) dummy_entry)) = Ok (N.of_nat i).
+Proof.
+  intros es trailer fi i Hg Htr Hopen Hi. pose proof (graph_ok_wf es Hg) as Hwf.
+  assert (Hi' : (i < List.length (sorted_of es))%nat).
+  { rewrite (Permutation_length (sorted_perm es (rt_wfe es Hwf))), map_length. exact Hi. }
+  destruct (rt_ent es Hwf i Hi') as [_ E]. rewrite E.
+  exact (lookup_readback es trailer Hwf Htr fi Hopen i Hi').
+Qed.
+Print Assumptions C51_lookup.
 
 (* decode (encode g) = Ok g: opening the file and reading every position yields the commits of g (ids, trees,
    parent ids, level, generation v2, time) in id order — a permutation of g.  GenerationV2 comes back as written
